@@ -49,7 +49,10 @@ Proof. exact methods_forward_only. Qed.
    SELECTED PIC CASES:  the machine halts at the halt address after exactly
      image_steps c img eh = 12 + sum_{(e,h) in eh} elem_cost e h + 13
    steps, where eh pairs every element of the image (in element order) with the
-   hit case the interpreter loads for it,
+   hit case the interpreter loads for it.  The list eh is a STATIC datum of the
+   image: the theorem fixes ONE eh before any layout or entry state is chosen
+   (exists eh, forall L s0), so every run of the image - whatever the load
+   state, register and data contents - executes the same number of instructions,
      elem_cost (method id) _ = 2 + steps id
      elem_cost (PIC p) h     = 3 + (2 (h-1) + 3) + steps (case h of p)
      (each plus 10 with trampolines: 2 more stub instructions, 5 + 3 trampoline instructions)
@@ -57,59 +60,71 @@ Proof. exact methods_forward_only. Qed.
 Theorem C06_executed_count_plain : forall c script img,
   successful c script img -> plain c ->
   (uses_tramp (c_variant c) = true -> c_data_reg c <> 6) ->
+  exists eh, map fst eh = im_elements img /\ Forall (fun x => hit_ok (fst x) (snd x)) eh /\
   forall L s0, Init c img (Ntot c img) L s0 -> code_lo L = int_start_al c ->
     code_hi L - code_lo L < 2147483648 - 2048 -> pics_encodable img ->
     (forall r o, In (r, o) int_slots -> 0 <= rget s0 r < W64) ->
-    exists s' eh, map fst eh = im_elements img /\ Forall (fun x => hit_ok (fst x) (snd x)) eh /\
-      run (gv c) L (image_steps c img eh) s0 = (Next s', image_steps c img eh) /\ pc s' = halt_at L.
+    exists s', run (gv c) L (image_steps c img eh) s0 = (Next s', image_steps c img eh) /\ pc s' = halt_at L.
 Proof.
-  intros c script img Hs Hb H6 L s0 HI Hat Hsm Hp Hr.
-  destruct (plain_image_from_files c script img Hs Hb H6 L s0 _ HI eq_refl Hat Hsm Hp Hr) as (s' & eh & E1 & E2 & R & P & _).
-  exists s', eh. auto.
+  intros c script img Hs Hb H6.
+  destruct (plain_image_from_files_static c script img Hs Hb H6) as (eh & E1 & E2 & H).
+  exists eh. split; [exact E1|]. split; [exact E2|].
+  intros L s0 HI Hat Hsm Hp Hr.
+  destruct (H L s0 HI Hat Hsm Hp Hr) as (s' & R & P & _).
+  exists s'. auto.
 Qed.
 
 (* the same for the RIMI shadow-stack variant (call chains within the shadow-stack capacity) *)
 Theorem C06_executed_count_rimiss : forall c script img,
   successful c script img -> c_variant c = GRimiSS -> c_data_reg c <> 6 ->
+  exists eh, map fst eh = im_elements img /\ Forall (fun x => rhit_ok (fst x) (snd x)) eh /\
   forall L s0, Init c img (rNtot c img) L s0 -> code_lo L = int_start_al c ->
     code_hi L - code_lo L < 2147483648 - 2048 -> pics_encodable img ->
     SSmax img <= zlen (im_ss img) ->
     (forall r o, In (r, o) int_slots -> 0 <= rget s0 r < W64) ->
-    exists s' eh, map fst eh = im_elements img /\ Forall (fun x => rhit_ok (fst x) (snd x)) eh /\
-      run (gv c) L (rimage_steps img eh) s0 = (Next s', rimage_steps img eh) /\ pc s' = halt_at L.
+    exists s', run (gv c) L (rimage_steps img eh) s0 = (Next s', rimage_steps img eh) /\ pc s' = halt_at L.
 Proof.
-  intros c script img Hs Hb H6 L s0 HI Hat Hsm Hp Hc Hr.
-  destruct (rimiss_image_from_files c script img Hs Hb H6 L s0 HI Hat Hsm Hp Hc Hr) as (s' & eh & E1 & E2 & R & P & _).
-  exists s', eh. auto.
+  intros c script img Hs Hb H6.
+  destruct (rimiss_image_from_files_static c script img Hs Hb H6) as (eh & E1 & E2 & H).
+  exists eh. split; [exact E1|]. split; [exact E2|].
+  intros L s0 HI Hat Hsm Hp Hc Hr.
+  destruct (H L s0 HI Hat Hsm Hp Hc Hr) as (s' & R & P & _).
+  exists s'. auto.
 Qed.
 
 (* the same for the RIMI full variant *)
 Theorem C06_executed_count_rimifull : forall c script img,
   successful c script img -> c_variant c = GRimiFull -> c_data_reg c <> 6 ->
+  exists eh, map fst eh = im_elements img /\ Forall (fun x => fhit_ok (fst x) (snd x)) eh /\
   forall L s0, Init c img (fNtot c img) L s0 -> code_lo L = int_start_al c ->
     code_hi L - code_lo L < 2147483648 - 2048 -> pics_encodable img ->
     FSW img <= zlen (im_ss img) ->
     (forall r o, In (r, o) int_slots -> 0 <= rget s0 r < W64) ->
-    exists s' eh, map fst eh = im_elements img /\ Forall (fun x => fhit_ok (fst x) (snd x)) eh /\
-      run (gv c) L (fimage_steps img eh) s0 = (Next s', fimage_steps img eh) /\ pc s' = halt_at L.
+    exists s', run (gv c) L (fimage_steps img eh) s0 = (Next s', fimage_steps img eh) /\ pc s' = halt_at L.
 Proof.
-  intros c script img Hs Hb H6 L s0 HI Hat Hsm Hp Hc Hr.
-  destruct (rimifull_image_from_files c script img Hs Hb H6 L s0 HI Hat Hsm Hp Hc Hr) as (s' & eh & E1 & E2 & R & P & _).
-  exists s', eh. auto.
+  intros c script img Hs Hb H6.
+  destruct (rimifull_image_from_files_static c script img Hs Hb H6) as (eh & E1 & E2 & H).
+  exists eh. split; [exact E1|]. split; [exact E2|].
+  intros L s0 HI Hat Hsm Hp Hc Hr.
+  destruct (H L s0 HI Hat Hsm Hp Hc Hr) as (s' & R & P & _).
+  exists s'. auto.
 Qed.
 
 (* the same for the FIXER variant (the trap instruction of every checked return is skipped) *)
 Theorem C06_executed_count_fixer : forall c script img,
   successful c script img -> c_variant c = GFixer -> c_data_reg c <> 6 ->
+  exists eh, map fst eh = im_elements img /\ Forall (fun x => xhit_ok (fst x) (snd x)) eh /\
   forall L s0, Init c img (xNtot c img) L s0 -> code_lo L = int_start_al c ->
     code_hi L - code_lo L < 2147483648 - 2048 -> pics_encodable img ->
     (forall r o, In (r, o) int_slots -> 0 <= rget s0 r < W64) ->
-    exists s' eh, map fst eh = im_elements img /\ Forall (fun x => xhit_ok (fst x) (snd x)) eh /\
-      run (gv c) L (ximage_steps img eh) s0 = (Next s', ximage_steps img eh) /\ pc s' = halt_at L.
+    exists s', run (gv c) L (ximage_steps img eh) s0 = (Next s', ximage_steps img eh) /\ pc s' = halt_at L.
 Proof.
-  intros c script img Hs Hb H6 L s0 HI Hat Hsm Hp Hr.
-  destruct (fixer_image_from_files c script img Hs Hb H6 L s0 HI Hat Hsm Hp Hr) as (s' & eh & E1 & E2 & R & P & _).
-  exists s', eh. auto.
+  intros c script img Hs Hb H6.
+  destruct (fixer_image_from_files_static c script img Hs Hb H6) as (eh & E1 & E2 & H).
+  exists eh. split; [exact E1|]. split; [exact E2|].
+  intros L s0 HI Hat Hsm Hp Hr.
+  destruct (H L s0 HI Hat Hsm Hp Hr) as (s' & R & P & _).
+  exists s'. auto.
 Qed.
 
 (* the per-method count is ImageSem.count_method (the quantity the dynamic judge
